@@ -1,7 +1,10 @@
 (* Evaluator of the "sizeprog" engine (translator tie for the generated Size closures, Model/SizeProg.v).
-     SIZEPROG  sid idx           = printed program        model: print (canon_size sch idx); a difference is the finding
-     @SIZEDEF  sid idx program   = ok                      context line: parse and remember the TRANSLATED program of (sid, idx);
+     SIZEPROG  sid idx k         = printed statement      model: print (k-th top-level statement of canon_size sch idx), "-" if there is none
+     SIZEPROG  sid idx len       = number of statements   model: length (canon_size sch idx)      (a difference in either is the finding;
+                                                           the translated program is reported statement by statement to keep the report readable)
+     @SIZEDEF  sid idx program   = ok                     context line: parse and remember the TRANSLATED program of (sid, idx);
                                                            ok iff printing the parsed program gives the text back (printer/parser agree)
+     SIZEPROG  sid idx eqb       = same                   model: prog_eqb <translated program of (sid, idx)> (canon_size sch idx)
      SIZERUN   sid idx VAL       = proto.Size              model: run_size sch idx <translated program of (sid, idx)> VAL
    Text form of programs (the Go printer in harness/cmd/runner/sizeprog.go writes the same):
      program  (prog stmt...)
@@ -97,14 +100,21 @@ let prog_p (s : string) : stmt list =
 
 let sizeprog_eval (fn : string) (args : string list) : string =
   match fn, args with
-  | "SIZEPROG", [ sid; mid ] -> prog_s (canon_size (Ctx.schema sid) (nat_of_int (int_of_string mid)))
+  | "SIZEPROG", [ sid; mid; k ] ->
+    let canon = canon_size (Ctx.schema sid) (nat_of_int (int_of_string mid)) in
+    if k = "len" then string_of_int (List.length canon)
+    else if k = "eqb" then
+      (match Hashtbl.find_opt progs (sid, mid) with
+       | Some p -> if prog_eqb p canon then "same" else "different"
+       | None -> "no-translated-program")
+    else (match List.nth_opt canon (int_of_string k) with Some s -> stmt_s s | None -> "-")
   | "SIZEDEF", [ sid; mid; text ] ->
     let p = prog_p text in
     Hashtbl.replace progs (sid, mid) p;
     let canon = canon_size (Ctx.schema sid) (nat_of_int (int_of_string mid)) in
     (* the model's decidable equality and the comparison of the printed texts are the same judgement *)
     Driver.law "sizeprog.prog_eqb_is_text_equality" (prog_eqb p canon = (text = prog_s canon));
-    if prog_s p = text then "ok" else "reprinted:" ^ prog_s p
+    if prog_s p <> text then "reprinted:" ^ prog_s p else "ok"
   | "SIZERUN", [ sid; mid; v ] ->
     let sch = Ctx.schema sid and m = nat_of_int (int_of_string mid) and v = val_of_string v in
     (* the statement of size_prog_correct (SizeProg.size_prog_correct_stmt) on this case *)
